@@ -1,8 +1,21 @@
 //! C11 — SubmissionQueue::wake never loses a wake-up.
 //!
-//! One poller thread calling `Ring::poll(None)` (no timeout: a lost wake-up blocks forever) and
+//! One poller thread calling `Ring::poll(None)` (no timeout: a lost wake-up blocks forever) or
+//! `Ring::poll(Some(1 hour))` (chosen per poll; a lost wake-up sleeps the whole hour) and
 //! k waker threads calling `SubmissionQueue::wake`, run under the baton scheduler on the
 //! simulated kernel; the executed interleaving is replayed on Model/Wake.v.
+//!
+//! The hour is never waited for. When the poller is blocked with a timeout and the scheduler finds
+//! nobody left who could run, the wait ends with ETIME (`sched::default_block` answers
+//! `BlockAction::Etime`): the block handler records that as the marker 996 in the execution log
+//! (like 999 for a wait without a timeout), it becomes the event `Timeout` of the model, and the
+//! oracle counts it as a lost wake-up when one is owed: the poll slept its whole timeout through it.
+//!
+//! Single-issuer rings (mode 1, half of them with DEFER_TASKRUN) are built disabled by the case's
+//! main thread and enabled by the poller thread before its first poll: the poller is the issuer
+//! (Linux: the thread that enables the ring), the waker threads are "another thread" and the
+//! simulated kernel refuses their `io_uring_enter` with EEXIST. The code as it is never makes one:
+//! it sends the wake message with the synchronous IORING_REGISTER_SEND_MSG_RING.
 //!
 //! In a third of the cases some of the poller's `io_uring_enter` calls are interrupted by a signal
 //! (EINTR), chosen per poll from the case's stream: either *at the call* (the simulated kernel's
@@ -82,9 +95,15 @@ pub fn one_case(r: &mut Rng, silent: &Arc<Mutex<Option<String>>>, debug: bool) -
     // Parked futures: a third of the cases that start with a full queue (drawn last: the cases
     // without them are what they were before this was added).
     let n_parked: u32 = if prefill == cap && r.below(3) == 0 { r.range(1, 3) as u32 } else { 0 };
+    // Per poll: no timeout, or a finite one (never waited for: the scheduler decides). Drawn after
+    // everything else: the other choices of a case are what they were before this was added.
+    let timed: Vec<bool> = (0..polls).map(|_| r.below(2) == 0).collect();
+    let defer_taskrun = r.below(2) == 0;
     let cfg = a10::Ring::config().with_submission_queue_size(cap);
     let cfg = match mode {
-        1 => cfg.single_issuer(),
+        // Built disabled: the thread that enables the ring (the poller) becomes its issuer.
+        1 if defer_taskrun => cfg.single_issuer().defer_task_run().disable(),
+        1 => cfg.single_issuer().disable(),
         2 => cfg.with_kernel_thread(),
         _ => cfg,
     };
@@ -128,16 +147,23 @@ pub fn one_case(r: &mut Rng, silent: &Arc<Mutex<Option<String>>>, debug: bool) -
     let recs: Arc<Mutex<Vec<PollRec>>> = Arc::new(Mutex::new(Vec::new()));
     // A signal is due for the poll in progress once it blocks.
     let signal_due = Arc::new(AtomicBool::new(false));
+    let enable_failed: Arc<Mutex<Option<String>>> = Arc::new(Mutex::new(None));
     {
         let signal_due = signal_due.clone();
-        simk::set_block_handler(Some(Box::new(move |fd| {
+        simk::set_block_handler(Some(Box::new(move |fd, has_timeout| {
             if signal_due.swap(false, Ordering::SeqCst) {
                 // Not blocked as far as the scheduler is concerned: it resumes the poller whenever it
                 // likes (others may run first); being resumed from 997 is the signal arriving.
                 sched::yield_point(997);
                 BlockAction::Eintr
             } else {
-                sched::default_block(fd, false)
+                // `has_timeout` is what the kernel was given, not what the caller of poll passed.
+                let action = sched::default_block(fd, has_timeout);
+                if action == BlockAction::Etime {
+                    // Nobody left to run: the timeout expires (the poll slept all of it).
+                    sched::push_marker(996);
+                }
+                action
             }
         })));
     }
@@ -147,7 +173,15 @@ pub fn one_case(r: &mut Rng, silent: &Arc<Mutex<Option<String>>>, debug: bool) -
         let recs = recs.clone();
         let signal_due = signal_due.clone();
         let plan = plan.clone();
+        let timed = timed.clone();
+        let enable_failed = enable_failed.clone();
         threads.push(Box::new(move || {
+            if mode == 1 {
+                // The poller becomes the issuer of the single-issuer ring.
+                if let Err(e) = ring.enable() {
+                    *enable_failed.lock().unwrap() = Some(format!("setup: Ring::enable on the poller thread failed: {e}"));
+                }
+            }
             for k in 0..polls {
                 match plan[k] {
                     Intr::No => {}
@@ -157,7 +191,7 @@ pub fn one_case(r: &mut Rng, silent: &Arc<Mutex<Option<String>>>, debug: bool) -
                     Intr::WhileBlocked => signal_due.store(true, Ordering::SeqCst),
                 }
                 let start = sched::exec_len();
-                let _ = ring.poll(None);
+                let _ = ring.poll(if timed[k] { Some(std::time::Duration::from_secs(3600)) } else { None });
                 let end = sched::exec_len();
                 // Disarm what was not used.
                 let consumed = match plan[k] {
@@ -201,7 +235,7 @@ pub fn one_case(r: &mut Rng, silent: &Arc<Mutex<Option<String>>>, debug: bool) -
     }
     if debug {
         println!("plan {plan:?} recs {recs:?} intr_at {intr_at:?}");
-        println!("mode {mode} wakers {n_wakers} wakes {:?} polls {polls} cap {cap} prefill {prefill} parked {n_parked}", wakes_each);
+        println!("mode {mode} defer {defer_taskrun} wakers {n_wakers} wakes {:?} polls {polls} timed {timed:?} cap {cap} prefill {prefill} parked {n_parked}", wakes_each);
         for (t, p) in &out.exec {
             print!("T{t}@{p} ");
         }
@@ -226,6 +260,9 @@ pub fn one_case(r: &mut Rng, silent: &Arc<Mutex<Option<String>>>, debug: bool) -
     let _ = &mut first_pstate_step;
     // Interrupted enters seen in the log: (at the call / while blocked, a wake-up owed at that moment).
     let mut intr_seen: Vec<(Intr, bool)> = Vec::new();
+    // Timeouts that expired (marker 996): was a wake-up owed at that moment.
+    let mut expired: Vec<bool> = Vec::new();
+    let mut slept_through = false;
     for (k, (t, p)) in out.exec.iter().enumerate() {
         if k > 0 {
             events.push_str("; ");
@@ -253,6 +290,14 @@ pub fn one_case(r: &mut Rng, silent: &Arc<Mutex<Option<String>>>, debug: bool) -
             if owed {
                 lost = true;
             }
+        } else if *p == 996 {
+            events.push_str("Timeout");
+            // The same for a wait with a timeout: it went on until the timeout expired.
+            expired.push(owed);
+            if owed {
+                lost = true;
+                slept_through = true;
+            }
         } else if *t == 0 {
             events.push('P');
         } else {
@@ -263,7 +308,14 @@ pub fn one_case(r: &mut Rng, silent: &Arc<Mutex<Option<String>>>, debug: bool) -
         }
     }
     if lost {
-        oracle = Some("SubmissionQueue::wake was called while a Ring::poll was in progress (or before the next one started) and that poll blocked forever: the wake-up was lost".into());
+        oracle = Some(if slept_through {
+            "SubmissionQueue::wake was called while a Ring::poll with a timeout was in progress (or before it started) and that poll slept until its timeout expired: the wake-up was lost".to_string()
+        } else {
+            "SubmissionQueue::wake was called while a Ring::poll was in progress (or before the next one started) and that poll blocked forever: the wake-up was lost".to_string()
+        });
+    }
+    if let Some(what) = enable_failed.lock().unwrap().take() {
+        oracle.get_or_insert(what);
     }
     if let Some(what) = park_failed {
         oracle.get_or_insert(what);
@@ -273,11 +325,16 @@ pub fn one_case(r: &mut Rng, silent: &Arc<Mutex<Option<String>>>, debug: bool) -
         oracle.get_or_insert(format!("a thread panicked: {p} {msg}"));
     }
     let polls_left = polls - *returned.lock().unwrap();
-    let (pstate, cq, sqp) = simk::with_fd(ring_fd, |s| {
+    let (pstate, cq, sqp, refused) = simk::with_fd(ring_fd, |s| {
         s.check_counters();
-        (0i128, s.cq_ready() as i128, s.sq_pending() as i128)
+        (0i128, s.cq_ready() as i128, s.sq_pending() as i128, s.refused_not_issuer)
     })
-    .unwrap_or((0, 0, 0));
+    .unwrap_or((0, 0, 0, 0));
+    // A poll with a timeout that blocked and was resumed because something arrived: a 998 entry of
+    // the poller inside the execution-log range of a poll called with a timeout.
+    let blocked_timed_then_woken = recs.iter().enumerate().any(|(k, rec)| {
+        timed[k] && (rec.start..rec.end.min(out.exec.len())).any(|j| out.exec[j] == (0, 998))
+    });
     let _ = pstate;
     for e in simk::with(|s| s.take_log()) {
         if let Ev::Corrupt { what } = e {
@@ -299,12 +356,15 @@ pub fn one_case(r: &mut Rng, silent: &Arc<Mutex<Option<String>>>, debug: bool) -
     let mode_s = ["Default", "SingleIssuer", "KernelThread"][mode as usize];
     let wk: Vec<String> = wakes_each.iter().map(|k| format!("{k}%nat")).collect();
     let coq = format!(
-        "{{| wk_mode := {mode_s}; wk_cap := {cap}%N; wk_prefill := {prefill}%N; wk_parked := {n_parked}%N; wk_polls := {polls}%nat; wk_wakes := [{}]; wk_events := [{events}] |}}",
+        "{{| wk_mode := {mode_s}; wk_cap := {cap}%N; wk_prefill := {prefill}%N; wk_parked := {n_parked}%N; wk_polls := {polls}%nat; wk_timed := [{}]; wk_wakes := [{}]; wk_events := [{events}] |}}",
+        timed.iter().map(|b| b.to_string()).collect::<Vec<_>>().join("; "),
         wk.join("; ")
     );
     let plan_s: Vec<String> = plan.iter().map(|p| format!("\"{p:?}\"")).collect();
     let json = format!(
-        "{{\"mode\":\"{mode_s}\",\"sq_entries\":{cap},\"queued_before\":{prefill},\"futures_parked_before\":{n_parked},\"polls\":{polls},\"wakes_per_waker\":{:?},\"enter_interrupted_per_poll\":[{}],\"schedule\":[{jsched}]}}",
+        "{{\"mode\":\"{mode_s}\",\"sq_entries\":{cap},\"queued_before\":{prefill},\"futures_parked_before\":{n_parked},\"polls\":{polls},\"poll_timeout_per_poll\":[{}],\"single_issuer_defer_taskrun\":{},\"wakes_per_waker\":{:?},\"enter_interrupted_per_poll\":[{}],\"schedule\":[{jsched}]}}",
+        timed.iter().map(|b| if *b { "\"Some(3600s)\"" } else { "\"None\"" }).collect::<Vec<_>>().join(","),
+        mode == 1 && defer_taskrun,
         wakes_each,
         plan_s.join(",")
     );
@@ -355,6 +415,12 @@ pub fn one_case(r: &mut Rng, silent: &Arc<Mutex<Option<String>>>, debug: bool) -
         ),
         format!("parked_poller_blocked:{}", if n_parked == 0 { "-".to_string() } else { format!("{}", blocked_then_woken || out.stuck) }),
         format!("parked_enter_interrupted:{}", if n_parked == 0 { "-".to_string() } else { format!("{}", !intr_seen.is_empty()) }),
+        format!("polls_with_timeout:{}of{polls}", timed.iter().filter(|b| **b).count()),
+        format!("timeouts_expired:{}", expired.len()),
+        format!("timeout_expired_with_wakeup_owed:{}", expired.iter().any(|o| *o)),
+        format!("timed_poll_blocked_then_woken:{}", blocked_timed_then_woken),
+        format!("single_issuer_ring:{}", if mode != 1 { "-" } else if defer_taskrun { "defer_taskrun" } else { "plain" }),
+        format!("enters_refused_not_issuer:{refused}"),
     ];
     Case { coq, obs, json, oracle, known: None, tags, nontrivial: preemptions > 0 }
 }
